@@ -63,6 +63,7 @@ def gen_cases(rng, n, profile):
                 "p_extfail": {"c04": 0.06}.get(profile, 0.01),
                 "p_call2": {"c16": 0.1}.get(profile, 0.02),
                 "managed": rng.random() < 0.5,          # calls made inside `with Parallel(...)`
+                "warn_error": rng.random() < 0.3,       # close() under warnings-as-errors
                 "p_abort_race": 0.5}
         cases.append(case)
     return cases
